@@ -31,6 +31,7 @@ RULE = ("after a failing migrate apply the independent dump equals (start databa
 
 K_NONE_FILE = "C13|none+directive-file"
 K_STALE = "C13|none|rerun-stale-hash"
+K_ERRKEPT = "C13|none|rerun-nothing-left|error-kept"
 K_DRY_TABLE = "C13|dry-run|creates-revision-table"
 K_DRY_BASE = "C13|dry-run|baseline-row"
 
@@ -181,7 +182,8 @@ def multi_candidates(ctx):
                             dirs = [rng.choice([None, "none", "file"]) for _ in range(nf)]
                         fails = [[p[0], p[1], "missing" if p == (0, 0) else rng.choice(kinds)] for p in ps]
                         cnt = rng.choice(["-", "-", "exact", "over"])
-                        c = {"part": "apply", "shape": shape, "shape_id": 100 + si, "directives": dirs, "dk": dk, "mode": mode,
+                        fixkinds = [rng.choice(valid_fixkinds(shape, fails, i)) if rng.random() < 0.4 else "replace" for i in range(len(fails))]
+                        c = {"part": "apply", "fixkinds": fixkinds, "shape": shape, "shape_id": 100 + si, "directives": dirs, "dk": dk, "mode": mode,
                              "fail": fails[0], "fails": fails, "start": start, "prefix": k, "cnt": cnt,
                              "count": {"-": None, "exact": F - k + 1, "over": 99}[cnt], "fk": rng.random() < 0.08,
                              "dseed": rng.getrandbits(32), "busy": True, "samefile": same}
@@ -191,6 +193,56 @@ def multi_candidates(ctx):
                         else:
                             other.append(c)
     return resumed, other
+
+
+def spos_class(shape, fail):
+    n, s = shape[fail[0]], fail[1]
+    return "only" if n == 1 else "first" if s == 0 else "last" if s == n - 1 else "mid"
+
+
+def valid_fixkinds(shape, fails, i):
+    f, s = fails[i][0], fails[i][1]
+    infile = sum(1 for x in fails if x[0] == f)
+    if (f, s) == (0, 0) or shape[f] - infile < 1:
+        return ["replace", "split"]  # the journal table must stay, and a file must keep a statement
+    return list(L.FIX_KINDS)
+
+
+def fix_candidates(ctx):
+    """One failing statement, fixed otherwise than by replacing it: the statement is deleted, split in two,
+    or moved to a new later file (x position first/middle/last in its file x mode x directive)."""
+    rng = ctx.rand("fix-cases")
+    shapes = [[3], [2], [2, 3], [3, 2, 4], [1, 3, 2]]
+    for _ in range(ctx.pick(2, 8)):
+        shapes.append([rng.randint(2, 4) for _ in range(rng.randint(1, 4))])
+    cands = []
+    for si, shape in enumerate(shapes):
+        nf = len(shape)
+        for f in range(nf):
+            for s_ in range(shape[f]):
+                for mode in ("file", "all", "none"):
+                    for dk in ("nodir", "F:none", "F:file"):
+                        if mode == "all" and dk != "nodir":
+                            continue
+                        for start in ["fresh", "dirty"] + (["prefix"] if f > 0 else []):
+                            kind = "missing" if (f, s_) == (0, 0) else rng.choice([k for k in L.FAIL_KINDS if k != "fk"])
+                            fails = [[f, s_, kind]]
+                            for fx in valid_fixkinds(shape, fails, 0):
+                                if fx == "replace":
+                                    continue
+                                k = rng.randint(1, f) if start == "prefix" else 0
+                                dirs = [None] * nf
+                                if dk != "nodir":
+                                    dirs[f] = dk[2:]
+                                cands.append({"part": "apply", "shape": shape, "shape_id": 200 + si, "directives": dirs, "dk": dk, "mode": mode,
+                                              "fail": fails[0], "fails": fails, "fixkinds": [fx], "start": start, "prefix": k, "cnt": "-",
+                                              "count": None, "fk": rng.random() < 0.08, "dseed": rng.getrandbits(32), "busy": True, "samefile": False})
+    return cands
+
+
+def fix_projs(c):
+    eff = c["directives"][c["fail"][0]] or c["mode"]
+    return [("a", c["mode"], eff, c["fixkinds"][0], spos_class(c["shape"], c["fail"])), ("b", c["fixkinds"][0], c["start"], c["mode"])]
 
 
 def multi_projs(c):
@@ -235,6 +287,7 @@ class Judge:
     def __init__(self, ctx, case, ev, d):
         self.ctx, self.case, self.ev, self.d = ctx, case, ev, d
         self.n = 0
+        self.errkept = set()  # versions whose completed revision kept error/error_stmt (reported once, masked afterwards)
 
     def judge(self, phase, st, exp, before, after, before_db, rc, out, err, args, eff, inv_mode):
         """Returns the model state to continue from, or None when the case cannot continue."""
@@ -251,6 +304,8 @@ class Judge:
             return L.diff_user(eu, L.user_part(after)), L.check_revs(before, after, state.revs)
 
         du, dr = compare(exp.state)
+        # a kept error that was already reported for this case (narrow class below) stays on the untouched, completed row
+        dr = [x for x in dr if not any(x.startswith("revision %s carries error" % v) for v in self.errkept)]
         rc_bad = (rc != 0) != exp.fails
         obs = {"phase": phase, "args": args[2:], "rc": rc, "model": exp.why, "expected_state": exp.state.desc(),
                "before_to_after": diff_full(before, after), "stderr": tail(err), "stdout": tail(out, 400)}
@@ -271,6 +326,14 @@ class Judge:
                                                      "expected_by_model": exp.state.desc(), "observed_equals": exp.bug[1].desc(),
                                                      "user_state_diff_vs_model": du[:10], "revision_diff_vs_model": dr[:10]}))
                 return exp.bug[1]
+        if exp.errkept and not du and not rc_bad and dr and all(x.startswith("revision %s carries error" % exp.errkept) for x in dr):
+            self.ev.add(verdict="violated", key=K_ERRKEPT, rev_diff=dr, **obs)
+            ctx.violation(K_ERRKEPT, "none mode: a partially applied file whose failing LAST statement was removed (nothing left to execute) is completed "
+                          "by the re-run (applied == total) but its revision keeps the old error and error_stmt", self.case,
+                          L.jsonable({"phase": phase, "args": args, "rc": rc, "stdout": tail(out, 800), "revision_diff": dr,
+                                      "revisions_after": L.norm(after)["revisions"]}))
+            self.errkept.add(exp.errkept)
+            return exp.state
         aspect = "user-state" if du else "revisions" if dr else "exit-code"
         key = "C13|migrate-apply|mode=%s|file-mode=%s|%s" % (inv_mode, eff, aspect) + ("" if phase == "fail-run" else "|" + phase)
         self.ev.add(verdict="violated", key=key, user_diff=du, rev_diff=dr, **obs)
@@ -345,9 +408,10 @@ def run_apply_case(ctx, case, verbose=False):
     mdir, db = os.path.join(d, "m"), os.path.join(d, "x.db")
     good = L.gen_files(random.Random(case["dseed"]), case["shape"], case["directives"])
     rem = sorted(tuple(x) for x in (case.get("fails") or ([case["fail"]] if case["fail"] else [])))
+    allfails, fixkinds, nfixed = list(rem), case.get("fixkinds") or [], 0
     multi = len(rem) > 1
-    fail = rem[0] if rem else None
-    bad = L.with_failures(good, rem)
+    bad, fail = L.dir_version(good, allfails, fixkinds, 0)
+    final_files, _ = L.dir_version(good, allfails, fixkinds, len(allfails))
     mode, fk, busy = case["mode"], case["fk"], case.get("busy", True)
     write_files(mdir, L.render(bad))
     ok, msg = hash_dir(ctx, d, mdir)
@@ -429,7 +493,8 @@ def run_apply_case(ctx, case, verbose=False):
     while True:
         rem = rem[1:]
         rounds += 1
-        files_k = L.with_failures(good, rem)
+        nfixed = min(nfixed + 1, len(allfails))
+        files_k, nxt = L.dir_version(good, allfails, fixkinds, nfixed)
         write_files(mdir, L.render(files_k))
         ok, msg = hash_dir(ctx, d, mdir)
         if not ok:
@@ -437,7 +502,6 @@ def run_apply_case(ctx, case, verbose=False):
             return ev
         sums_k = L.read_sums(mdir)
         remember(sums_k)
-        nxt = rem[0] if rem else None
         eff = eff_of(nxt) if nxt else eff
         t = [x for x in partial_trail if x]
         if len(t) >= 2 and t[-1][0] == t[-2][0] and t[-1][1] > t[-2][1] >= 1 and partial_trail[-1] and partial_trail[-2]:
@@ -459,7 +523,7 @@ def run_apply_case(ctx, case, verbose=False):
             break
         if cur.done == prev.done and cur.partial == prev.partial and not expk.fails:
             break  # cannot happen for a consistent model; guards against an endless loop
-    if expk.fails or cur.done != len(good):
+    if expk.fails or cur.done != len(final_files):
         ctx.count("rerun-cannot-complete:" + ("all+directive" if mode == "all" else "known-defect"))
         return ev
     if multi and sample_multi(mode):
@@ -467,7 +531,7 @@ def run_apply_case(ctx, case, verbose=False):
                     "files_first_run": L.render(bad),
                     "runs": [{k: e.get(k) for k in ("phase", "rc", "model", "verdict", "before_to_after", "stderr")} for e in L.jsonable(ev.items)]}, cap=6)
     # ---- final state == clean run of the fixed directory ----
-    ref = clean_reference(ctx, good, case["start"] == "dirty", fk)
+    ref = clean_reference(ctx, final_files, case["start"] == "dirty", fk)
     if ref is None:
         ctx.inconclusive("clean-reference-unavailable")
         return ev
@@ -478,10 +542,12 @@ def run_apply_case(ctx, case, verbose=False):
     for v in sorted(partial_versions):
         got = [r["hash"] for r in final["revisions"] if r["version"] == v]
         want = [r["hash"] for r in clean["revisions"] if r["version"] == v]
-        name = [f["name"] for f in good if f["version"] == v][0]
+        name = [f["name"] for f in final_files if f["version"] == v][0]
         if got and want and got[0] != want[0] and got[0] in hist.get(name, ()):
             stale = {"version": v, "hash_after_rerun": got[0], "hashes_of_broken_versions": sorted(hist[name] - {want[0]}), "hash_of_fixed_file=clean_run": want[0]}
             a, b = L.mask_hash(a, v), L.mask_hash(b, v)
+    for v in sorted(j.errkept):
+        a, b = L.mask_cols(a, v, ("error", "error_stmt")), L.mask_cols(b, v, ("error", "error_stmt"))
     ctx.eval(digest("final", final["tables"], final["master"]))
     ctx.count("final-compared-with-clean-run")
     if a != b:
@@ -791,7 +857,10 @@ def main():
     multi_sel = select(ctx, resumed, ctx.pick(14, 120), multi_projs) + select(ctx, other, ctx.pick(26, 240), multi_projs)
     for c in multi_sel:
         ctx.count("multi|mode=%s|file-mode=%s|failures=%d|same-file=%s" % (c["mode"], c["directives"][c["fail"][0]] or c["mode"], len(c["fails"]), c["samefile"]))
-    apply_sel = apply_sel + multi_sel
+    fix_sel = select(ctx, fix_candidates(ctx), ctx.pick(40, 260), fix_projs)
+    for c in fix_sel:
+        ctx.count("fix-variant|%s|mode=%s|file-mode=%s|pos=%s" % (c["fixkinds"][0], c["mode"], c["directives"][c["fail"][0]] or c["mode"], spos_class(c["shape"], c["fail"])))
+    apply_sel = apply_sel + multi_sel + fix_sel
     schema_sel = select(ctx, schema_candidates(ctx), ctx.pick(36, 320), schema_projs)
     dry_sel = select(ctx, dry_candidates(ctx), ctx.pick(72, 480), dry_projs)
     matrix = {}
@@ -811,7 +880,7 @@ def main():
         RUNNERS[w[0]](ctx, w[1])
 
     ctx.par(work, one, workers=min(ctx.workers, 16))
-    ctx.finish(RULE, {"cases": {"apply": len(apply_sel), "apply-multi-failure": len(multi_sel), "schema": len(schema_sel), "dry": len(dry_sel)},
+    ctx.finish(RULE, {"cases": {"apply": len(apply_sel), "apply-multi-failure": len(multi_sel), "apply-fix-variants": len(fix_sel), "schema": len(schema_sel), "dry": len(dry_sel)},
                       "matrix(mode|directive|start|failing-position)": matrix,
                       "exhaustive": False})
     if not os.environ.get("VERIF_KEEP"):
